@@ -72,6 +72,10 @@ theorem c35_stats (d : Data) (hist : List Samples) (t : Nat)
   rw [statOf_analyze_fold d hist t _ _ (statOf_initStats d t hinfo) hwf]
   simp
 
+-- OBLIGATION c35_no_raise : CycleProfile.make never raises StopIteration (profiler.py:254) when transactions_by_method is consistent with method_parents, so a cycle profile exists for every cycle of every history
+theorem c35_no_raise (s : Samples) (d : Data) (h : tbmClosed s d) : makeRaises s d = false :=
+  makeRaises_false s d h
+
 /-- non-vacuity: T1 and T2 conflict (both call M5 through M4 / directly), T2 runs, T1 is ready
     and runnable and locked; M4 is used by T1 only, M5 runs with running parent T2 -/
 example :
@@ -94,3 +98,4 @@ end TxV.Profiler
 #print axioms TxV.Profiler.c35_locked
 #print axioms TxV.Profiler.c35_locked_iff
 #print axioms TxV.Profiler.c35_stats
+#print axioms TxV.Profiler.c35_no_raise
